@@ -180,7 +180,8 @@ def batch(prop, tier, base_seed, start, count, deadline, presets=None):
                     agg['violations'][kk] = {
                         'clause': v[0], 'key': v[1], 'msg': v[2], 'seed': seed,
                         'run_index': idx, 'preset': preset, 'decisions': r['decisions'],
-                        'digest': r['digest'], 'count': 0}
+                        'digest': r['digest'], 'count': 0,
+                        'batch_start': start if presets is None else None}
                 agg['violations'][kk]['count'] += 1
         if n % 50 == 49:
             gc.collect()
@@ -306,10 +307,80 @@ def write_replay(module, tier, viol, decisions, base_seed):
     return path
 
 
+def run_history(prop, tier, base_seed, indices):
+    """Runs the given run indices one after the other in THIS process (which must be fresh)
+    and returns the result of the last one.  Used for violations that only appear when state
+    leaked from earlier simulated runs of the same process (e.g. a mutable default argument
+    in the code under test)."""
+    module = _import_check(prop)
+    r = None
+    for i in indices:
+        r = execute(module, tier, seed=run_seed(base_seed, prop, i), want_trace=True)
+    return r
+
+
+def history_in_subprocess(prop, tier, base_seed, indices):
+    import subprocess
+    env = dict(os.environ)
+    p = subprocess.run([sys.executable, os.path.join(VERIF, 'check'), prop, '--history',
+                        '%d' % base_seed, tier, ','.join(str(i) for i in indices)],
+                       env=env, capture_output=True, text=True, cwd=VERIF, timeout=600)
+    for line in p.stdout.splitlines():
+        if line.startswith('HISTORY-RESULT '):
+            return json.loads(line[len('HISTORY-RESULT '):])
+    return None
+
+
+def try_history(prop, tier, base_seed, viol):
+    """-> replay path or None"""
+    start, idx = viol.get('batch_start'), viol.get('run_index')
+    if start is None or idx is None or idx - start > 3000:
+        return None
+    target = [viol['clause'], viol['key']]
+    full = list(range(start, idx + 1))
+    res = history_in_subprocess(prop, tier, base_seed, full)
+    if not res or res.get('violation', [None, None])[:2] != target:
+        return None
+    best = full
+    k = 1
+    while k < len(full):
+        cand = full[-(k + 1):]
+        r = history_in_subprocess(prop, tier, base_seed, cand)
+        if r and r.get('violation', [None, None])[:2] == target:
+            best, res = cand, r
+            break
+        k *= 2
+    again = history_in_subprocess(prop, tier, base_seed, best)
+    if not again or again.get('digest') != res.get('digest'):
+        return None
+    os.makedirs(os.path.join(VERIF, 'replays'), exist_ok=True)
+    tag = hashlib.sha1((target[0] + '|' + target[1]).encode()).hexdigest()[:8]
+    path = os.path.join(VERIF, 'replays', '%s-%d-%s.json' % (prop, base_seed, tag))
+    doc = {'property': prop, 'kind': 'history', 'clause': target[0], 'key': target[1],
+           'violation': res['violation'][2], 'base_seed': base_seed, 'tier': tier,
+           'run_indices': best, 'digest': res['digest'], 'trace': res.get('trace', [])[-120:],
+           'note': 'the violation appears only when these simulated runs execute one after the '
+                   'other in one fresh process: state of the code under test leaks from one '
+                   'run (connection) to the next'}
+    with open(path, 'w') as f:
+        json.dump(doc, f, indent=1, default=repr)
+    return path
+
+
 def replay_file(prop, path):
     module = _import_check(prop)
     with open(path) as f:
         doc = json.load(f)
+    if doc.get('kind') == 'history':
+        r = run_history(prop, doc.get('tier', 'quick'), doc['base_seed'], doc['run_indices'])
+        v = r['violation']
+        print('digest', r['digest'], '(expected %s)' % doc.get('digest'))
+        if v and [v[0], v[1]] == [doc['clause'], doc['key']]:
+            print('violation: %s [%s] %s' % v)
+            print('VIOLATION property=%s replay=%s' % (prop, path))
+            return 1
+        print('no violation on replay')
+        return 0
     r = execute(module, doc.get('tier', 'quick'), decisions=doc['decisions'],
                 preset=doc.get('preset'), want_trace=True)
     for line in r['trace'][-80:]:
@@ -502,6 +573,14 @@ def _check_main(prop, tier):
         try:
             dec, nrep = shrink(module, tier, v, budget_s=45)
             if dec is None:
+                hp = try_history(prop, tier, base_seed, v)
+                if hp:
+                    nviol += 1
+                    print('violation: %s [%s] %s (seen in %d runs; reproduces only as a sequence '
+                          'of runs in one process: state leaks between simulated runs)'
+                          % (v['clause'], v['key'], v['msg'][:300], v['count']))
+                    print('VIOLATION property=%s replay=%s' % (prop, hp))
+                    continue
                 print('HARNESS ERROR: violation %s [%s] did not reproduce from its own '
                       'decision list (seed %s run %s)' % (v['clause'], v['key'], v['seed'],
                                                           v['run_index']))
